@@ -138,6 +138,18 @@ def generate(rng, tier):
         pre = _nodes(rng, "grid")[:rng.choice([0, 0, 1])]
         nodes = pre + [[piece[0], piece[0], piece[1]], [piece[2], piece[3], piece[3]]]
         cases.append({"nodes": nodes, "flat": flat * sc, "exact": True, "family": "slowly-flattening/" + shape})
+    # deep but narrow: an out-and-back stroke along an axis, 10^5 .. 10^7 units long, flattened to 10^-4 .. 10^-2: only the piece that
+    # holds the turning point stays unflat, through 17 .. 25 halvings, so the result has a few dozen nodes (no bound on the number of
+    # halvings is part of the contract); float run, compared within 2^-44 of the coordinate scale
+    for _ in range(max(6, n // 30)):
+        L = F(rng.choice([10**5, 10**6, 2**20, 10**7, 3 * 10**6])); flat = F(1, rng.choice([10**4, 10**3, 2**10, 100]))
+        a, b = rng.choice([(L, L / 4), (L, -L / 8), (L / 2, L), (L, L / 3), (-L / 5, L)])
+        y = F(rng.randint(-50, 50)); x0 = F(rng.randint(-50, 50)); x3 = x0 + rng.choice([0, 3, 40])
+        piece = [(x0, y), (x0 + a, y), (x0 + b, y), (x3, y)]
+        if rng.random() < 0.5: piece = [(q, p) for p, q in piece]
+        if rng.random() < 0.3: piece = piece[::-1]
+        nodes = [[piece[0], piece[0], piece[1]], [piece[2], piece[3], piece[3]]]
+        cases.append({"nodes": nodes, "flat": flat, "exact": False, "eps_rel": 2.0 ** -44, "family": "deep-narrow-out-and-back"})
     for _ in range(n // 6):
         nodes = _far_nodes(rng)
         cases.append({"nodes": nodes, "flat": F(1, 2 ** rng.choice([13, 12, 11, 10])), "exact": True, "family": "far-from-origin/n=%d" % len(nodes)})
@@ -170,6 +182,7 @@ def _node(nd):
 
 def coq_case(c, r):
     scale = max([abs(v) for nd in c["nodes"] for h in nd for v in h] + [F(1)])
+    if "eps_rel" in c: scale = scale * F(c["eps_rel"]) * 10**9          # Corr/C10.v takes eps = scale * 1e-9 for float runs: a tighter comparison for this case
     impl = "None" if "raise" in r else "(Some %s)" % clist([_node(nd) for nd in r["out"]])
     return "(K10 %s %s %s %s %s)" % (cb(c["exact"]), cq(c["flat"]), cq(scale), clist([_node(nd) for nd in c["nodes"]]), impl)
 
